@@ -231,6 +231,7 @@ extern ShimCounters g_shim;
 void shim_begin_op();
 void shim_arm_fault(long long k, int code, bool writes_only);
 void shim_disarm();
+void shim_set_fault_site(bool at_prepare);
 void shim_arm_alloc_fault(long long k);
 bool shim_disarm_alloc_fault();
 void shim_set_step_budget(long long vdbe_steps);
